@@ -172,6 +172,19 @@ def main():
     except Exception:
         st = {'internal': traceback.format_exc()[-400:]}
     cov['source_tie'] = st
+    # ... and the control flow: the decoder functions of the current source, translated to programs over the Reader
+    # trait (py/rs2v), must be the Model's programs -- as terms, or on every input of the list reader (py/srctie2.py)
+    try:
+        import srctie2
+        sf = srctie2.check(REPO, srctie2.RELEVANT.get(prop, []), os.path.join(workdir, 'srctie2')) if not replay else {}
+    except Exception:
+        sf = {'internal': traceback.format_exc()[-400:]}
+    cov['source_tie_functions'] = sf
+    cov['source_tie_note'] = ('tables/constants (source_tie) and decoder control flow (source_tie_functions) are regenerated from '
+                              'the source text on every run and checked against the Model by the kernel; a tie that no longer holds '
+                              'is not a violation by itself (the differential correspondence decides), it multiplies the search budget')
+    if any(not v.startswith('tied') for v in sf.values()):
+        ctx.boost = max(ctx.boost, 4)
     if any(v != 'tied' for v in st.values()):
         # a table moved or changed: not a violation by itself (the differential correspondence decides), search harder
         ctx.boost = max(ctx.boost, 4)
